@@ -294,7 +294,9 @@ CLAIMS = {
         note="sort.SearchInts, append/copy/make and Go maps are re-implemented from their documentation.",
         technique="Lean 4 refinement proof (invariant over operation histories on a slice heap) + differential correspondence + regenerated facts"),
     "C17": dict(
-        text="PARTIAL by nature (growth for ALL unambiguous grammars needs lower bounds nobody has). Machine-checked (Lean 4): the call "
+        text="For the property's quantifier - the six named families, one grammar each, at EVERY input length (not only up to several "
+             "hundred bytes) - proved: exact closed forms and calls(2n) <= 16 calls(n) (in fact <= 4 resp. 2) for all n; the statement "
+             "for ALL unambiguous grammars is open (it needs a bound on result-list sizes). Machine-checked (Lean 4): the call "
              "count is a function of grammar, environment and input - identical for any two fuels that answer, independent of the "
              "ghost flag and of the file's base offset (c17_det, c17_det_run, c17_det_ghost, c17_det_offset); an exact ACCOUNTING of "
              "calls for every grammar: a cache hit, a curtailment, a terminal cost 0, Any/Choice cost one per alternative tried plus "
